@@ -249,16 +249,32 @@ def isForeign (s m : Nat) : Op → Bool
 def Cfg.setTags (c : Cfg) (s : Nat) (l : List Nat) : Cfg :=
   { c with args := fun x => if x = s then { c.args x with tags := l, accepted := false } else c.args x }
 
+/-- A transition source as written in the declaration: the name `rel`, relative to the scope `scope` the
+transition was declared in (the machine itself, or a parent's state dict: `'transitions': [['again', 'b', 'b']]`). -/
+structure Declared where
+  scope : Nat
+  rel : Nat
+  deriving Repr, DecidableEq
+
+/-- `Retry.enter` (repaired, /repo 962fbf3) on a hierarchical machine:
+`source = separator.join(machine.prefix_path + [transition.source])` — the declared source is made global with
+the scope the transition is being processed in (`full scope rel` is that join) before it is compared with the
+scoped `self.name`. -/
+def enterDeclared (c : Cfg) (full : Nat → Nat → Nat) (s m : Nat) (d : Declared) (st : FS) : FS × Outcome :=
+  enterOp c s m (full d.scope d.rel) st
+
 /-- C19's Retry clause as the *hierarchical* engine exercises it, full strength.  After an entry of `s` by
-`m` from another state come `seen.length` consecutive re-entries of `s` from `s` itself and then one more;
-`Retry.enter` reads `event_data.transition.source` for each of them, which is the source *as written in the
-transition's declaration* (`seen[i]`, `last`): the full name when declared on the machine, the name relative
-to the parent when declared inside the parent's state dict (`'transitions': [['again', 'b', 'b']]`).
-The clause: that last re-entry runs the enter callbacks iff it is at most the `retries`-th. -/
-def RetryExactScoped (c : Cfg) (s m : Nat) : Prop :=
-  ∀ (st : FS) (src0 : Nat), src0 ≠ s → ∀ (seen : List Nat) (last : Nat),
-    ((enterOp c s m last (runOps c (.enter s m src0 :: seen.map (fun x => Op.enter s m x)) st)).2 = .entered ↔
-      seen.length + 1 ≤ (c.args s).retries)
+`m` from another state come `seen.length` consecutive re-entries of `s` from `s` itself — transitions whose
+declared source, wherever and however it was declared, *is* the state `s` (`full scope rel = s`) — and then
+one more.  The clause: that last re-entry runs the enter callbacks iff it is at most the `retries`-th. -/
+def RetryExactScoped (c : Cfg) (full : Nat → Nat → Nat) (s m : Nat) : Prop :=
+  ∀ (st : FS) (d0 : Declared), full d0.scope d0.rel ≠ s →
+    ∀ (seen : List Declared) (last : Declared),
+      (∀ d ∈ seen, full d.scope d.rel = s) → full last.scope last.rel = s →
+      ((enterDeclared c full s m last
+          (runOps c (.enter s m (full d0.scope d0.rel) ::
+            seen.map (fun d => Op.enter s m (full d.scope d.rel))) st)).2 = .entered ↔
+        seen.length + 1 ≤ (c.args s).retries)
 
 /-- the undecorated machine: no mixins in the state class -/
 def Cfg.plain (c : Cfg) : Cfg := { c with feats := [] }
